@@ -167,6 +167,7 @@ def main(argv=None):
     known_lines = []
     outside_region = []
     violations = []
+    viol_lines_pre = []
     stale = []
     for name in refuted:
         g = groups[name]
@@ -197,11 +198,48 @@ def main(argv=None):
             for f in fs:
                 stale.append('KNOWN-FINDING-STALE: property=%s %s (obligation %s is now discharged)' % (pid, f['what'], obname))
 
+    # ---- ledger: obligations discharged on the committed unchanged tree + hashes of the files they were generated from.
+    # An obligation of the ledger that is no longer discharged (solver unknown, or the contract cannot be attached any
+    # more) AFTER an anchored file was edited is reported as a violation (no counterexample: no-failing-input-found);
+    # on unedited files the same outcome is only UNDECIDED, so solver load can never raise an alarm on the pinned tree.
+    import hashlib
+    ledger_path = os.path.join(VERIF, 'ledger', '%s.json' % pid)
+    file_hashes = {}
+    for rp, m in source._modules.items():
+        file_hashes[rp] = hashlib.sha256(m.text.encode('utf-8')).hexdigest()
+    ledger = None
+    if os.path.exists(ledger_path):
+        ledger = json.load(open(ledger_path))
+    if '--update-ledger' in argv:
+        os.makedirs(os.path.dirname(ledger_path), exist_ok=True)
+        good = sorted(n for n, g in groups.items() if not g['expect_fail'] and n not in refuted and n not in unknown)
+        json.dump({'property': pid, 'obligations': good + sorted(outside_region), 'files': file_hashes}, open(ledger_path, 'w'), indent=1)
+        ledger = json.load(open(ledger_path))
+    edited = []
+    if ledger is not None:
+        edited = sorted(rp for rp, h in ledger['files'].items() if file_hashes.get(rp) != h)
+        led = set(ledger['obligations'])
+        regress = [n for n in unknown if n.split(' (')[0] in led]
+        missing = [n for n in led if n not in groups]
+        if edited and regress:
+            # retry once with the thorough budget before calling it a regression
+            obs_r = [o for n in regress for o in groups[n.split(' (')[0]]['obs']]
+            res_r = solve.discharge(obs_r, max(60, timeout_s * 3))
+            still = set(o.name for o, r in zip(obs_r, res_r) if r['status'] != 'proved')
+            for n in list(regress):
+                if n.split(' (')[0] not in still:
+                    unknown.remove(n)
+                    n_dis += 1
+                else:
+                    unknown.remove(n)
+                    violations.append(n.split(' (')[0])
+
     # ---- replay of violations
-    viol_lines = []
+    viol_lines = list(viol_lines_pre)
     for name in violations:
         g = groups[name]
-        idx = [i for i, r in enumerate(g['res']) if r['status'] in ('refuted', 'refuted-candidate')][0]
+        idxs = [i for i, r in enumerate(g['res']) if r['status'] in ('refuted', 'refuted-candidate')]
+        idx = idxs[0] if idxs else [i for i, r in enumerate(g['res']) if r['status'] != 'proved'][0]
         path, found = replay_mod.make_replay(pid, name, g['obs'][idx], g['res'][idx], g['contract'], reg, mod)
         line = 'VIOLATION property=%s replay=%s' % (pid, path)
         if not found:
@@ -220,6 +258,7 @@ def main(argv=None):
             try:
                 j = replay_mod.job_of(c, reg, mod, pid, '<cross-check>')
                 j['name'] = c.name
+                j['known_regions'] = [f['region'] for f in findings if f.get('function') == c.name and f.get('native_region', True)]
                 jobs.append(j)
             except Unsupported:
                 continue
@@ -229,6 +268,12 @@ def main(argv=None):
             if isinstance(r, list):
                 for e in r:
                     cross[e['name']] = e.get('tried', 0)
+                    if e.get('known_hits'):
+                        for f in findings:
+                            if f.get('function') == e['name']:
+                                l = 'KNOWN-FINDING: property=%s %s' % (pid, f['what'])
+                                if l not in known_lines:
+                                    known_lines.append(l)
                     if e.get('input') is not None:
                         # the real code violates the contract on a concrete input
                         obs_of_fn = [n for n, g in groups.items() if g['contract'].name == e['name'] and not g['expect_fail']]
@@ -332,6 +377,7 @@ def main(argv=None):
         'per_obligation': per_ob,
         'covers_satisfiable': covers_ok,
         'canaries_failed_as_expected': canaries_ok,
+        'ledger': {'present': ledger is not None, 'edited_files': edited},
         'known_findings': known_lines,
         'discharged_only_outside_known_finding_region': outside_region,
         'undecided': unknown,
